@@ -240,7 +240,16 @@ def map_strategy(ref, choices):
             # head of a decision rule / AD instance reported under its own name (what main() prints anyway)
             hs = [(d2, vi) for d2 in everything if d2["kind"] != "fact"
                   for vi, h in enumerate(d2["heads"]) if h == name]
-            if len(hs) == 1 and name not in fact_by_name:
+            if len(hs) == 1 and name not in fact_by_name and hs[0][0]["ci"] in relevant_ci:
+                # only if the head atom really is that alternative (its body is certainly true); otherwise the name
+                # stands for another decision that is equivalent to the head atom (handled as an alias below)
+                atom = ref.atom_by_name.get(name)
+                cm = ref.res.cmask[(hs[0][0]["ci"], hs[0][1])] & ref.res.posw
+                if atom is not None and (ref.res.masks[atom] & ref.res.posw) != cm:
+                    plain.append((name, v))
+                else:
+                    got.setdefault(hs[0][0]["ci"], {})[hs[0][1]] = v
+            elif len(hs) == 1 and name not in fact_by_name:
                 got.setdefault(hs[0][0]["ci"], {})[hs[0][1]] = v
             elif len(hs) > 1:
                 return None, None, None, ("inconclusive", "ambiguous-decision-names")
